@@ -423,6 +423,16 @@ def step (d : DState) (line : String) : DState × String :=
       | some (_, .waiting a) => (d, "waiting " ++ sTick.sRes a)
       | some (wid, .got e) => (d, "got " ++ sEv e ++ " " ++ sList sTick.sRes (WaitOut.results wid (.got e)))
     | _ => (d, "bad-op")
+  | "rebuild" :: ts =>
+    -- rebuild <now> <n> <policy>*n: `rebuild_state_from_ticks(<the state the run was started from>, <the tick log>)`
+    -- at clock <now>; the i-th policy table holds the decisions made while the i-th logged tick is replayed
+    match (do let now ← int; let ps ← counted policy; pure (now, ps)) ts with
+    | some ((now, ps), []) =>
+      if ps.length ≠ d.run.log.length then (d, "bad-op") else
+      match rebuildAt d.cfg d.st ((d.run.log.map (·.1)).zip ps) now with
+      | some s => (d, sState d.cfg s)
+      | none => (d, "crash")
+    | _ => (d, "bad-op")
   | ["rend"] => (d, sOutcome d.run.outcome ++ " ;; " ++ sList sPub d.run.stream)
   | ["rstream"] => (d, sList sPub d.run.stream)
   -- the lifecycle telemetry (StepStateChanged) of the published stream, in order (C35)
